@@ -429,10 +429,12 @@ def kid_rules(kid_kind: int, n: int, s: str, via: int) -> bool:
             KeySet([key, k2])
         elif via == 2:
             ks = KeySet([key])
-            ks.keys.append(k2)
+            ks.keys.append(k2)                      # appended without a kid ...
+            k3 = OctKey(b"0000111122223333", {"kty": "oct", "k": "third-value", "kid": "z"})
+            ks.keys.append(k3)                      # ... and followed by a key that has its own kid
             out = ks.as_dict()
             kids = [x.get("kid") for x in out["keys"]]
-            if kids != [s if has else tp, k2.thumbprint()]:
+            if kids != [s if has else tp, k2.thumbprint(), "z"]:
                 return False
         else:
             key = OctKey.generate_key(128, {"kid": s} if has else None, auto_kid=True)
